@@ -168,6 +168,17 @@ func runsFor(prop, tier string) []run {
 			{"rebuild-diverged-joiner-writes-in-every-gap", mk(diverged, []string{"RB", "Step", "W0"}, 4, 0, 0, 5), pick(28, 32), minutes(pickf(1.2, 8))},
 			{"rebuild-killed-at-every-gate-then-retried", mk(withData, []string{"RB", "Step", "Kill", "MonFail", "W0"}, 3, 1, 0, 4), pick(30, 60), minutes(pickf(1.5, 10))},
 		}
+	case "C19":
+		src2 := []string{"Reg:0", "Start:0", "W:0", "Snap:0", "W:0", "Snap:0", "W:0"}
+		src1 := []string{"Reg:0", "Start:0", "W:0", "W:0", "Snap:0"}
+		mk := func(init, alpha []string, restarts, faults, w int) eb.Cfg {
+			return eb.Cfg{RF: 1, N: 2, Alphabet: alpha, Oracles: []string{"c19"}, Drain: true, Real: true, Clone: true, MaxWrites: w, MaxRestarts: restarts, MaxFaults: faults, MaxSnaps: 2, InitOps: init}
+		}
+		return []run{
+			{"clone-vs-start-polling-all-interleavings", mk(src2, []string{"BReg", "BStart", "StepX", "CloneProc", "Step"}, 0, 0, 3), pick(34, 36), minutes(pickf(2, 8))},
+			{"clone-with-source-writes-and-outage", mk(src1, []string{"BReg", "BStart", "StepX", "CloneProc", "Step", "W0", "SrcDown", "SrcUp"}, 0, 1, 3), pick(30, 40), minutes(pickf(1.2, 8))},
+			{"clone-killed-and-restarted", mk(src1, []string{"BReg", "BStart", "StepX", "CloneProc", "Step", "Kill"}, 1, 0, 2), pick(30, 45), minutes(pickf(1, 8))},
+		}
 	case "C13":
 		alpha := []string{"W0", "Snap", "Break", "Heal", "Remove", "MonFail", "MonWake", "Add", "Sync", "Verify", "ERR", "Restart"}
 		or := []string{"c13", "c18"}
